@@ -104,13 +104,21 @@ package cmd
 //@   requires clientWF() && cmd != nil
 //@   requires [repo-connected] store.logConn(fs, client.RootGoitPath)
 
+//@ func stagedTargets
+//@   returns paths
+//@   pure
+//@   requires index != nil && store.wfIndex(index) && tree != nil && object.treeWF(tree.Children)
+
 //@ func restoreCmd.PreRunE
 //@   returns err
 //@   pure
 //@   requires client != nil
 
+// what init() loaded and what is on disk agree: a branch file for the current branch means its commit was loaded
+//@ pred headFileSync() := !isAbsent(fs, store.refPath(client.RootGoitPath, client.Head.Reference)) ==> client.Head.Commit != nil
 //@ func restoreCmd.RunE
 //@   requires clientWF() && cmd != nil
+//@   requires [head-sync] headFileSync()
 //@   invariant-all clientWF()
 
 //@ func revParseCmd.PreRunE
